@@ -1,5 +1,5 @@
 (* C17 — Persisted stores and regions are loaded back completely and pruned consistently.
-   Statements only; proofs in proof/C17_PagingProof.v, proof/C17_StorageProof.v, proof/C17_Skel.v.
+   Statements only; proofs in proof/C17_PagingProof.v, proof/C17_StorageProof.v, proof/C17_PruneProof.v, proof/C17_WarmProof.v, proof/C17_Skel.v.
 
    Quantification.  `ops` ranges over all histories of SaveStore / DeleteStore / SaveStoreWeight / SaveRegion /
    DeleteRegion / Flush / reopen / byte-budget changes / loads, with arbitrary uint64 ids (`ops_ok`: 0 <= id < 2^64) —
@@ -13,7 +13,7 @@
    C17_pad_covers_uint64); LoadRange is end-exclusive (obligations src_*_LoadRange_ok). *)
 From Coq Require Import String.
 From PDV Require Import lib.Base lib.C17_Map gen.Gen_C17 model.C17_Storage
-     proof.C17_PagingProof proof.C17_StorageProof proof.C17_PruneProof proof.C17_Skel.
+     proof.C17_PagingProof proof.C17_StorageProof proof.C17_PruneProof proof.C17_WarmProof proof.C17_Skel.
 Local Open Scope Z_scope.
 Local Open Scope list_scope.
 
@@ -45,6 +45,24 @@ Theorem C17_paging_exact :
          snd (fst (fst res)) = acc ++ todo m next /\ (snd (fst res), snd res) = final cb m c (todo m next)) /\
       sorted_from lo0 (snd (fst res)).
 Proof. exact (@page_loop_spec). Qed.
+
+(* the same for a callback that may also REWRITE the record it is shown (rw: the cluster's load callback brings a stale record
+   of a cached id up to date): any callback that - whatever its state - only has records deleted that the scan has reached.
+   Last clause: without LoadRange failures the load ends with RDone. *)
+Theorem C17_paging_exact_with_rewrite :
+  forall (V C : Type) (fails : nat -> amap V -> bool) (cb : C -> Z * V -> C * list Z) (rw : C -> Z * V -> option V) (min_limit : Z),
+    1 <= min_limit ->
+    (forall c it d, In d (snd (cb c it)) -> d <= fst it) ->
+    forall fuel m next limit call c acc,
+      sorted_from 0 m -> 0 <= next -> 1 <= limit ->
+      (length (todo m next) + Z.to_nat (Z.log2 limit) < fuel)%nat ->
+      let res := page_loop fails cb rw min_limit fuel m next limit call c acc in
+      fst (fst (fst res)) <> RDiverged /\
+      (fst (fst (fst res)) = RDone ->
+         snd (fst (fst res)) = acc ++ todo m next /\ (snd (fst res), snd res) = final_rw cb rw m c (todo m next)) /\
+      sorted_from 0 (snd (fst res)) /\
+      ((forall n p, fails n p = false) -> fst (fst (fst res)) = RDone).
+Proof. exact (@page_loop_rw_spec). Qed.
 
 (* the adaptive limit of loadRegions walks 10000, 5000, 2500, 1250, 625, 312, 156 and then gives up *)
 Theorem C17_region_limit_chain : Chain Gen_C17.minKVRangeLimit 156 Gen_C17.maxKVRangeLimit.
@@ -181,16 +199,20 @@ Theorem C17_loaded_callback_cache :
     forall id, In id (snd (check_and_put c r)) -> id <= fst r -> In id (snd (put_loaded c r)).
 Proof. exact put_loaded_cache_pf. Qed.
 
-(* stated, not proved (checks/C17.json "todo"): after a load over ANY warm cache every record left in storage describes
-   the cached region of its id, and every cached region that had a record still has one. (Before dc3cb19 the
-   callback deleted ids ahead of the scan and the second half was FALSE - C17_lagging_cache_eager_callback_refuted; now
-   C17_loaded_callback_deletes_behind gives the hypothesis of the paging theorem, what is missing is the paging theorem for
-   callbacks with the rewrite hook. The correspondence cases and the monitor cover it.) *)
-Definition C17_warm_load_todo : Prop :=
-  forall (m : amap rv) (c0 : cache), sorted_from 0 m -> disjoint c0 -> ids_distinct c0 ->
+(* After a load over ANY warm cache - ids pairwise different, nothing else is asked of it: it may lag behind the storage, its
+   ranges need not even be disjoint - for every stored set of uint64 ids: the load ends, it has shown every record once, every
+   record left in storage describes the cached region of its id, and every cached region that had a record still has one, of
+   exactly the cached version. (Before dc3cb19 the second half was FALSE: C17_lagging_cache_eager_callback_refuted.)
+   This was `C17_warm_load_todo`; the statement gained the hypothesis that ids are below 2^64 (a record with a larger id cannot
+   exist and would never be read) and lost `disjoint c0`, which is not needed. *)
+Theorem C17_warm_load :
+  forall (m : amap rv) (c0 : cache), sorted_from 0 m -> (forall k v, In (k, v) m -> k < two64) -> ids_distinct c0 ->
     let res := page_loop never_fails put_loaded rw_loaded region_limit_min (fuel_for m region_limit0) m 0 region_limit0 O c0 [] in
+    fst (fst (fst res)) = RDone /\
+    snd (fst (fst res)) = m /\
     (forall id v, lookup (snd (fst res)) id = Some v -> In (id, v) (snd res)) /\
     (forall id v, In (id, v) (snd res) -> lookup m id <> None -> lookup (snd (fst res)) id = Some v).
+Proof. exact warm_load_pf. Qed.
 
 (* the lagging cache (region 5 split and its left half merged into region 1 during another leader's term): storage, cache
    and the next full load agree after the warm load; with the callback as it was before dc3cb19 region 5 is served and has
@@ -252,4 +274,6 @@ Print Assumptions C17_stale_record_is_rewritten.
 Print Assumptions C17_loaded_callback_cold.
 Print Assumptions C17_loaded_callback_deletes_behind.
 Print Assumptions C17_loaded_callback_cache.
+Print Assumptions C17_paging_exact_with_rewrite.
+Print Assumptions C17_warm_load.
 Print Assumptions C17_prune_operation.
